@@ -248,7 +248,8 @@ def case_merge(col, p):
         seqs = {s for s in seqs if len(s) <= split or len(set(s)) == split}
     for seq in sorted(seqs):
         caches = [copy.deepcopy(parts[k]) for k in seq]
-        complete = set(seq) == set(idxs)
+        # complete = every job is owned by one of the parts listed (a part that owns no job - more split jobs than jobs - is not needed)
+        complete = set(k for k in owner.values()) <= set(seq)
         try:
             merged = DFE.Cache2D.merge(caches)
             raised = None
@@ -266,7 +267,7 @@ def case_merge(col, p):
                 col.violation('C17:Cache2D:merge:differs_from_single_job_cache', dict(p, seq=seq), '')
         else:
             if raised is None:
-                col.violation('C17:Cache2D:merge:incomplete_set_accepted', dict(p, seq=seq), 'missing parts %s' % sorted(set(idxs) - set(seq)))
+                col.violation('C17:Cache2D:merge:incomplete_set_accepted', dict(p, seq=seq), 'missing parts %s' % sorted(set(owner.values()) - set(seq)))
             else:
                 # the message names the first hole (row-major)
                 first = min((job for job, k in owner.items() if k not in seq))
@@ -275,8 +276,11 @@ def case_merge(col, p):
     # conflicts: one altered spectrum in one extra copy, at every position of the list
     if split >= 2:
         for victim in range(split):
+            owned = [jb for jb, k in sorted(owner.items()) if k == victim]
+            if not owned:
+                continue          # more split jobs than jobs: this part is empty
             bad = copy.deepcopy(parts[victim])
-            job = [jb for jb, k in sorted(owner.items()) if k == victim][0]
+            job = owned[0]
             orig = bad.spectra[job[0]][job[1]]
             # gross and slight disagreements (a regenerated job differing in the 7th digit, or only in an entry far below the others)
             alterations = {'x1.5': orig * 1.5, 'rel1e-7': orig * (1.0 + 1e-7), 'one_entry_abs1e-12': None}
